@@ -20,6 +20,8 @@ Monitors on the IMPLEMENTATION ALONE (a hit is a violation with the replayable p
   M5  after the block is added to A (validated delta) and to B (own evaluation) both ledgers hold the same state;
   MP  blocks taken from the REAL TransactionPool.AssembleBlock after Remember / re-evaluation are accepted by
       Ledger.Validate, twice, with identical deltas (harness/data/pools/zz_verif_c20pool_test.go);
+  M7  the producer's own state change (GenerateBlock, no prefetcher) and every validation agree on asset / application
+      resources, creatables, boxes and txids (everything that does not depend on the proposer);
   M6  header arithmetic: payset size, txn counter and fees collected equal what the accepted groups imply; the producer's
       payout equals min(pct·fees/100 + bonus, fee sink balance − min balance) and the finished block's payout is ≤ it.
 Correspondence with the model (driver `c20`): rewards state + pool withdrawal at block start, every group, the derived header
@@ -63,6 +65,7 @@ def monitor(case, dist=None):
         if dist is not None:
             dist[k] = dist.get(k, 0) + 1
     blk = None      # per-block state
+    apps_case = False
     for idx, (op, out) in enumerate(case["lines"]):
         k = op.split(" ", 1)[0]
         if out.startswith("PANIC"):
@@ -73,6 +76,8 @@ def monitor(case, dist=None):
             p = kv(op)
             cnt("proto:" + p.get("proto", "?"))
             cnt("ledgerA:" + ("disk" if p.get("disk") == "1" else "mem") + ("/nolru" if p.get("nolru", "0")[0] == "1" else "/lru"))
+            cnt("case:" + ("apps" if p.get("apps") == "1" else "lcore-kinds"))
+            apps_case = p.get("apps") == "1"
         elif k == "block":
             if out.startswith("start-error"):
                 return idx, "M1: the node could not start the evaluator for the next block: " + out[:200]
@@ -88,6 +93,11 @@ def monitor(case, dist=None):
                 return idx, "unparseable group result " + out[:120]
             cls = out.split(" | ", 1)[0]
             cnt("group:" + ("accepted" if cls == "ok" else "rejected"))
+            if apps_case:
+                for t in parse_group(op):
+                    if t[0] == "appl":
+                        cnt("appl:%s:%s" % ({"0": "noop", "1": "optin", "2": "closeout", "3": "clear", "4": "update", "5": "delete"}.get(t[8], "?") if t[7] != "0" else "create",
+                                            "accepted" if cls == "ok" else "rejected"))
             blk["sinkacct"] = kv(out.split(" | ", 1)[1]).get("A" + blk["sink"], blk["sinkacct"])
             if cls == "ok":
                 g = parse_group(op)
@@ -133,7 +143,13 @@ def monitor(case, dist=None):
             cnt("validate:" + cfg.rstrip("0123456789"))
             if not out.startswith("ok "):
                 return idx, "M2: a block assembled by the node is REJECTED by validation in configuration %s: %s" % (cfg, out[:200])
-            x = out.split(" | ", 1)[0].split("x=")[1]
+            hd = kv(out.split(" | ", 1)[0])
+            x = hd.get("x", "?")
+            # M7: the proposer-independent part of the state change (asset / application resources, creatables, kv mods, txids)
+            # computed by the PRODUCER (GenerateBlock, no prefetcher) equals the one validation computes
+            if blk["gen"] and blk["gen"].get("res") and hd.get("res") != blk["gen"]["res"]:
+                return idx, ("M7: validation (%s) computes a different state change for asset / application resources, creatables, boxes or txids "
+                             "than the producer computed while assembling the block (%s vs %s)" % (cfg, hd.get("res"), blk["gen"]["res"]))
             blk["x"][cfg] = (x, out.split(" | ", 1)[1] if " | " in out else "")
             ref_cfg, (ref_x, ref_txt) = next(iter(blk["x"].items()))
             if x != ref_x:
@@ -219,7 +235,7 @@ def run(ctx, replay_ops=None):
     ctx.cov["rule"] = ("a case = a fresh pair of real ledgers (A: in memory or on disk, LRU account caches on/off, MaxAcctLookback 1/2/4, tracker flushes; B: independent replica) from a generated genesis "
                        "(protocols v39 (no payouts), v40, v41, current, future and a test protocol with a 3-round rewards refresh and 3-round absentee challenges; 6 accounts with boundary balances, online accounts "
                        "whose keys expire inside the history, incentive-eligible accounts, fee sink, rewards pool sized so that the level moves) followed by 4–8 blocks; a block = a pool of 0–17 random valid / invalid "
-                       "signed groups (LedgerCore generator: payments, closes, keyreg, asset life cycles, fee pooling, dead / duplicate / malformed / overspending members) assembled as AssembleBlock does, finished "
+                       "signed groups (LedgerCore generator: payments, closes, keyreg, asset life cycles, fee pooling, dead / duplicate / malformed / overspending members; every third case instead carries APPLICATION CALLS — outside the Lean model, implementation-only monitors — on a TEAL v8 app: creation with / without the creator opting in, opt-ins, the creator bumping its own local state, third parties copying the creator's local state into global state, plain global writes, box writes, update, close-out, clear, delete, in blocks AFTER the one that created / opted in) assembled as AssembleBlock does, finished "
                        "for a random proposer (eligible or not, in / not in the participating set), validated in ≥ 3 of 12 configurations, mutated in a sample of ≤ 30 single header / payset fields, then added to both "
                        "ledgers; evaluations = block evaluations (validate + mutate ops); distinct = distinct (block commitment, configuration / mutation) pairs of non-empty blocks")
     rc, out = ctx.go_test(PKG, TEST, env=env, timeout=5400)
